@@ -62,6 +62,7 @@ ALPHA = [
     {"s": A, "op": "append", "m": "INBOX"},
     {"s": A, "op": "store", "set": "1", "mode": "+", "flags": "\\Deleted"},
     {"s": A, "op": "store", "set": "*", "mode": "+", "flags": "\\Seen kw"},
+    {"s": A, "op": "store", "set": "2", "mode": "+", "flags": "\\Deleted"},  # (a flag another message may already carry)
     {"s": A, "op": "expunge"},
     {"s": A, "op": "copy", "set": "1:*", "dst": "a"},
     {"s": A, "op": "move", "set": "1", "dst": "a"},
